@@ -265,15 +265,24 @@ def abstract_site(z: C, w: C, M: float, p, s):
     return dict(e1=e1, e2=e2, br=br, fin=True, sq=sq)
 
 
-def call_real(tdgl, psi, mu, eps, gamma, u, dt, L):
+def call_real(tdgl, psi, mu, eps, gamma, u, dt, L, werror=False):
+    """werror: the call is made in a process state where warnings are errors (python -W error / pytest -W error /
+    warnings.simplefilter("error")): the verdict and the answer must not depend on the warning filters."""
+    import warnings
+
     import scipy.sparse as sp
     from tdgl.solver.solver import TDGLSolver
 
     psi = np.asarray(psi, dtype=np.complex128)
-    res = TDGLSolver.solve_for_psi_squared(
-        psi=psi.copy(), abs_sq_psi=np.absolute(psi) ** 2, mu=np.asarray(mu, dtype=float), epsilon=np.asarray(eps, dtype=float),
-        gamma=gamma, u=u, dt=dt, psi_laplacian=sp.csr_array(L))
-    return res
+    kw = dict(psi=psi.copy(), abs_sq_psi=np.absolute(psi) ** 2, mu=np.asarray(mu, dtype=float), epsilon=np.asarray(eps, dtype=float),
+              gamma=gamma, u=u, dt=dt, psi_laplacian=sp.csr_array(L))
+    if not werror:
+        with warnings.catch_warnings():
+            warnings.simplefilter("default")
+            return TDGLSolver.solve_for_psi_squared(**kw)
+    with warnings.catch_warnings():
+        warnings.simplefilter("error")
+        return TDGLSolver.solve_for_psi_squared(**kw)
 
 
 def run_plan(tdgl, plan):
@@ -291,7 +300,7 @@ def run_plan(tdgl, plan):
         reals.append(r)
         psi[k], mu[k], eps[k] = r["psi"], r["mu"], r["eps"]
         L[k, k if r["lap"] == "diag" else n] = r["entry"]
-    res = call_real(tdgl, psi, mu, eps, gamma, u, dt, L)
+    res = call_real(tdgl, psi, mu, eps, gamma, u, dt, L, werror=plan.get("werror", False))
     ev = []
     worst_real = 0.0
     for k, s in enumerate(plan["sites"]):
@@ -324,6 +333,8 @@ def tiny_plans(seed, quick):
                 th = rnd.choice([0.0, 0.9, 2.5, -1.2])
                 plans.append(dict(gamma=gamma, u=rnd.choice([1.0, 5.79]), dt=2.0 ** rnd.randint(-8, 0), m=m, theta=th, mode=mode,
                                   n_ord=rnd.randint(1, 3), n_tiny=rnd.randint(1, 3), zeros=rnd.randint(0, 2), family=f"tiny|psi|={m:g}", seed=rnd.randrange(10 ** 6)))
+    # the same calls in a process state where warnings are errors: verdicts and answers must not depend on the warning filters
+    plans += [dict(p, werror=True, family="tiny-W-error" + p["family"][4:]) for p in plans]
     return plans
 
 
@@ -360,7 +371,7 @@ def run_tiny(tdgl, plan, ordinary):
             L[k, k] = -1.5 + 0.25j
         elif plan["mode"] == "aux":
             L[k, n] = m * (0.5 - 0.25j)
-    res = call_real(tdgl, psi, mu, eps, gamma, u, dt, L)
+    res = call_real(tdgl, psi, mu, eps, gamma, u, dt, L, werror=plan.get("werror", False))
     ev = []
     for k in range(n):
         action = complex(sum(L[k, j] * psi[j] for j in (k, n)))
@@ -436,7 +447,7 @@ def run_near(tdgl, plan, ordinary):
         reals.append(r)
         psi[k], mu[k], eps[k] = r["psi"], r["mu"], r["eps"]
         L[k, k if r["lap"] == "diag" else n] = r["entry"]
-    res = call_real(tdgl, psi, mu, eps, gamma, u, dt, L)
+    res = call_real(tdgl, psi, mu, eps, gamma, u, dt, L, werror=plan.get("werror", False))
     ev = []
     info = {}
     for k, s in enumerate(sites):
@@ -610,6 +621,13 @@ def insitu_run(tdgl, a, tmp):
         elif a.get("epsilon") is not None:
             kw["disorder_epsilon"] = a["epsilon"]
         scenario = a.get("scenario", "plain")
+        import warnings
+
+        wctx = warnings.catch_warnings()
+        wctx.__enter__()
+        if a.get("werror"):
+            # numerical warnings are errors in this process state (as under python -W error::RuntimeWarning)
+            warnings.simplefilter("error", RuntimeWarning)
         if scenario == "plain":
             tdgl.solve(dev, opts("a.h5", a["solve_time"]), **kw)
         elif scenario == "second-solve":
@@ -623,6 +641,7 @@ def insitu_run(tdgl, a, tmp):
             tdgl.solve(dev, opts("b.h5", a.get("solve_time2", a["solve_time"])), seed_solution=sol, **kw)
         else:
             raise ValueError(scenario)
+        wctx.__exit__(None, None, None)
     finally:
         TDGLSolver.update = orig_update
         TDGLSolver.solve_for_psi_squared = orig_sps
